@@ -17,8 +17,8 @@ PROP_FILE = 'theories/Properties/C14.v'
 MODEL_FILES = ['theories/Base/Rows.v', 'theories/Model/Estimators.v', 'theories/Model/Stochastic.v']
 GEN_GROUPS = []
 RULE = ('random categorical frames (datagen.cat_frame: 1-3 covariates of arity 2-4, both arms in every stratum, both '
-        'outcome values in every cell; binary and normal outcomes; a third of the StochasticIPTW frames carry an integer '
-        'weights column) with models saturated in the covariates; plans: unconditional p in {0, 1, grid} and conditional '
+        'outcome values in every cell; binary and normal outcomes; one frame in eight carries an integer weights column '
+        '(StochasticIPTW only)) with models saturated in the covariates; plans: unconditional p in {0, 1, grid} and conditional '
         'plans over exclusive exhaustive condition sets of size 1-4 (strings "df[\'S\'].isin([..])" / "df[\'L0\']==v" for '
         'StochasticIPTW and StochasticTMLE, the same with "g[...]" for TimeFixedGFormula.fit_stochastic) with '
         'probabilities from {0, 1, grid}, including all-{0,1} plans; StochasticIPTW in EVERY listing order, the simulating '
@@ -477,7 +477,7 @@ def check(ctx, fails, job, out, res, snaps_ok):
     std1, std0, gfm1, gfm0, mu1, mu0 = [frac(x) for x in fr]
     S = np.asarray(out['S'])
     nS = {s: int((S == s).sum()) for s in strata}
-    dS = {s: float(yb1[i] - yb0[i]) for i, s in enumerate(strata)}
+    dS = {s: yb1[i] - yb0[i] for i, s in enumerate(strata)}      # exact cell-mean differences
 
     def cmp(key, what, x, q, tol=TOL_FIT, pl=None):
         ctx.disagreements_checked += 1
@@ -627,8 +627,9 @@ def check(ctx, fails, job, out, res, snaps_ok):
                     ctx.disagreements_checked += len(hm)
                     badh = [i for i, (x, q) in enumerate(zip(r['haw'], hm)) if not close(x, q, TOL_FIT)]
                     if badh:
-                        ctx.broken_ties.append('correspondence: StochasticTMLE clever covariate of row %d: %r vs model %s (%s)'
-                                               % (badh[0], r['haw'][badh[0]], hm[badh[0]], odesc))
+                        fails.append((n, 'StochasticTMLE.fit.clever-covariate',
+                                      'StochasticTMLE.fit(%s): clever covariate of row %d is %r, plan probability of the received treatment over '
+                                      'the fitted probability is %s [%s]' % (odesc, badh[0], r['haw'][badh[0]], hm[badh[0]], tagf), payload))
                     if haw_first is None:
                         haw_first = r['haw']
                     else:
@@ -692,14 +693,14 @@ def check(ctx, fails, job, out, res, snaps_ok):
                                       '(%.1f sd away)%s [%s]' % (odesc, r['marg'], mix, float(mix), sd, abs(r['marg'] - float(mix)) / max(sd, 1e-300),
                                                                '; deterministic plan' if det_plan else '', tagf), payload))
                 elif not law_bad:
-                    var = 0.0
+                    var = Fraction(0)      # exact variance of one sample: m of nc rows drawn without replacement
                     for b, m in zip(blocks_of(key), want):
                         nc = sum(nS[s] for s in b)
                         if nc > 1:
                             pm = sum(nS[s] * dS[s] for s in b) / nc
-                            pv = max(sum(nS[s] * dS[s] ** 2 for s in b) / nc - pm ** 2, 0.0)
-                            var += m * (nc - m) / (nc - 1) * pv
-                    sd = math.sqrt(var / smp) / n
+                            pv = sum(nS[s] * dS[s] ** 2 for s in b) / nc - pm ** 2
+                            var += Fraction(m * (nc - m), nc - 1) * pv
+                    sd = math.sqrt(float(var) / smp) / n
                     ctx.disagreements_checked += 2
                     if abs(r['marg'] - float(gmix)) > 6 * sd + TOL_FIT:
                         fails.append((n, 'TimeFixedGFormula.fit_stochastic.marginal-vs-realised-plan',
@@ -785,7 +786,7 @@ def run_jobs(ctx, fails, jobs):
 def run(ctx):
     fails = []
     jobs = []
-    nf = 8 if ctx.quick else 48
+    nf = 12 if ctx.quick else 48
     for i in range(nf):
         otype = 'binary' if i % 4 != 3 else 'normal'
         weighted = (i % 8 == 5)
